@@ -12,7 +12,7 @@ from hypothesis import strategies as st
 
 from .. import streamreg as R
 from ..common import (SAME, Outcome, Violation, arr_close, exc_violation,
-                      guarded, snapshot, snapshot_diff)
+                      guarded)
 
 PROPERTY_ID = "C03"
 TECHNIQUE = ("Hypothesis-generated operation sequences (step / extra / "
@@ -48,7 +48,7 @@ ASSUMPTIONS = [
 ]
 PROFILE = {
     "quick": dict(examples=200, shards=16, budget_s=110),
-    "thorough": dict(examples=9000, shards=16, budget_s=1100),
+    "thorough": dict(examples=4000, shards=16, budget_s=1100),
 }
 
 MAX_INSTANCES = 60
